@@ -1,8 +1,10 @@
-(* C01_session - a whole connection: SetEncodings / SetPixelFormat changes and framebuffer updates
+(* C01_session_nontight - a whole connection (all encodings of send_rect; Tight rectangles, their four
+   streams, the stream id in the control byte and the <12-byte bypass are NOT part of this model): SetEncodings / SetPixelFormat changes and framebuffer updates
    in any order; the payloads of Zlib (6), ZRLE (16) and Ultra (9) rectangles go through
    compressors whose state persists for the connection (one per encoding, as in rfbClientRec:
-   compStream, zrleData->zs; LZO is stateless, modelled with a state that happens not to matter).
-   The compressors are oracles: Section variables with the round-trip hypothesis of StreamProofs. *)
+   compStream, zrleData->zs); LZO (Ultra) is a separate, stateless oracle.
+   The compressors are oracles: Section variables with round-trip hypotheses on NON-EMPTY data
+   (deflate with no input returns Z_BUF_ERROR; no rectangle has an empty payload). *)
 From Coq Require Import ZArith List Lia Bool Arith.
 From LV Require Import Enc.EncBase Enc.Update Dec.SpecBase Dec.SpecUpdate.
 Import ListNotations.
@@ -15,17 +17,19 @@ Section Session.
   Variables cstate dstate : Type.
   Variable compress : cstate -> list Z -> list Z * cstate.
   Variable decompress : dstate -> list Z -> option (list Z * dstate).
+  Variable lzo : list Z -> list Z.                      (* lzo1x_1_compress *)
+  Variable unlzo : list Z -> option (list Z).           (* lzo1x_decompress *)
 
-  (* zlib stream, zrle stream, lzo *)
-  Definition cstates := (cstate * cstate * cstate)%type.
-  Definition dstates := (dstate * dstate * dstate)%type.
+  (* zlib stream, zrle stream *)
+  Definition cstates := (cstate * cstate)%type.
+  Definition dstates := (dstate * dstate)%type.
 
   Definition wire_rect (cs : cstates) (r : wrect) : wrect * cstates :=
-    let '(cz, cr, cu) := cs in
+    let '(cz, cr) := cs in
     let put := fun pl => mkW (w_x r) (w_y r) (w_w r) (w_h r) (w_enc r) pl in
-    if (w_enc r =? 6)%Z then (put (fst (compress cz (w_payload r))), (snd (compress cz (w_payload r)), cr, cu))
-    else if (w_enc r =? 16)%Z then (put (fst (compress cr (w_payload r))), (cz, snd (compress cr (w_payload r)), cu))
-    else if (w_enc r =? 9)%Z then (put (fst (compress cu (w_payload r))), (cz, cr, snd (compress cu (w_payload r))))
+    if (w_enc r =? 6)%Z then (put (fst (compress cz (w_payload r))), (snd (compress cz (w_payload r)), cr))
+    else if (w_enc r =? 16)%Z then (put (fst (compress cr (w_payload r))), (cz, snd (compress cr (w_payload r))))
+    else if (w_enc r =? 9)%Z then (put (lzo (w_payload r)), cs)
     else (r, cs).
 
   Fixpoint wire_rects (cs : cstates) (rs : list wrect) : list wrect * cstates :=
@@ -55,14 +59,14 @@ Section Session.
 
   (* the client side, by the specification: persistent decompressors, then the rectangle decoder *)
   Definition unwire_rect (bypp cmode : nat) (ds : dstates) (r : wrect) : option (grid * dstates) :=
-    let '(dz, dr, du) := ds in
+    let '(dz, dr) := ds in
     let dec := fun pl => dec_rect (w_enc r) bypp cmode (w_w r) (w_h r) pl in
     if (w_enc r =? 6)%Z then
-      do (pl, dz') <- decompress dz (w_payload r); do g <- dec pl; Some (g, (dz', dr, du))
+      do (pl, dz') <- decompress dz (w_payload r); do g <- dec pl; Some (g, (dz', dr))
     else if (w_enc r =? 16)%Z then
-      do (pl, dr') <- decompress dr (w_payload r); do g <- dec pl; Some (g, (dz, dr', du))
+      do (pl, dr') <- decompress dr (w_payload r); do g <- dec pl; Some (g, (dz, dr'))
     else if (w_enc r =? 9)%Z then
-      do (pl, du') <- decompress du (w_payload r); do g <- dec pl; Some (g, (dz, dr, du'))
+      do pl <- unlzo (w_payload r); do g <- dec pl; Some (g, ds)
     else do g <- dec (w_payload r); Some (g, ds).
 
   Fixpoint unwire_rects (bypp cmode : nat) (ds : dstates) (rs : list wrect) : option (list grid * dstates) :=
